@@ -8,13 +8,14 @@ macro_rules! e {
     (VerificationError :: $($t:tt)*) => { mk_verification_error() };
     (Error :: $($t:tt)*) => { mk_error() };
 }
+// std's matches!
+macro_rules! matches { ($e:expr, $p:pat) => { match $e { $p => true, _ => false } }; }
 macro_rules! anyerr { ($($t:tt)*) => { () }; }
 macro_rules! ensure { ($cond:expr, $($t:tt)*) => { if !$cond { return Err(into_err(e!($($t)*))); } }; }
 verus! {
 //@include shims/std_wide.rs
 // ---- error values built by the e!/ensure! shims (n0_error's macros add a source location only)
 pub struct Error;
-pub struct VerificationError;
 #[verifier::external_body] pub fn mk_error() -> Error { unimplemented!() }
 #[verifier::external_body] pub fn mk_verification_error() -> VerificationError { unimplemented!() }
 #[verifier::external_body] pub fn into_err<A, B>(a: A) -> B { unimplemented!() }   // From::from on error types
@@ -37,6 +38,11 @@ impl FrameType {
     #[verifier::external_body]
     pub fn from_bytes(b: &mut Bytes) -> (r: Result<FrameType, Error>) { unimplemented!() }
 }
+
+pub mod iroh_base { pub use super::SignatureError; }
+// the real error enum; the e!/ensure! shims build ANY of its values (mk_verification_error), so code that distinguishes
+// variants is checked for every variant
+//@item iroh-relay/src/protos/handshake.rs enum VerificationError pub
 
 // ---- property-level uninterpreted vocabulary
 pub uninterp spec fn ed_valid(pk: PublicKey, msg: Seq<u8>, sig: Seq<u8>) -> bool;    // verify_strict accepts (pk, msg, sig)
@@ -252,12 +258,17 @@ impl KeyMaterialClientAuth {
 //@|     final(io).session() == old(io).session(),
 //@|     // the reported identity is one the client proved possession of, by one of the two mechanisms, in THIS session
 //@|     r matches Ok(a) ==> authenticated(a.client_key, a.mechanism, old(io).session()),
+//@|     // the only frames the server writes are one challenge, optionally followed by one denial: a key-material header
+//@|     // that does not verify (different material, no material on the server's side, bad signature) never ends the
+//@|     // handshake by itself — the challenge round follows, which is what lets an honest client always get in
+//@|     final(io).sent() == old(io).sent() || final(io).sent() == old(io).sent().push(FrameType::ServerChallenge)
+//@|         || final(io).sent() == old(io).sent().push(FrameType::ServerChallenge).push(FrameType::ServerDeniesAuth),
 //@rwx R1 2
 //@- \.map_err\(\|_\| \{
 //@+ .map_err(|_w| {
-//@rw R15 1
-//@- reason: "signature invalid".into(),
-//@+ reason: str_into_string("signature invalid"),
+//@rwx R15 *
+//@- reason: ("[^"]*")\.into\(\),
+//@+ reason: str_into_string(\1),
 //@end
 
 //@fn iroh-relay/src/protos/handshake.rs clientside props=C03 ret=r
